@@ -185,6 +185,18 @@ def run(ctx):
                 g.test = t
                 guards.append(g)
     if len(guards) != 2:
+        # the test may go through a helper that is not a one-liner: the guards are then found by what they guard -- the innermost
+        # `if` whose own body produces the EmptyTag tokens, and the innermost one whose body yields the EndTag
+        def innermost(pred):
+            found = [n for n in ast.walk(it.node) if isinstance(n, ast.If) and any(pred(c) for st in n.body for c in ast.walk(st) if isinstance(c, ast.Call))
+                     and not any(isinstance(m, ast.If) and m is not n and any(pred(c) for st in m.body for c in ast.walk(st) if isinstance(c, ast.Call))
+                                 for st in n.body for m in ast.walk(st))]
+            return found
+        ge = innermost(lambda c: norm(c.func) == "self.emptyTag")
+        gn = innermost(lambda c: norm(c.func) == "self.endTag")
+        if len(ge) == 1 and len(gn) == 1 and ge[0] is not gn[0]:
+            guards = [ge[0], gn[0]]
+    if len(guards) != 2:
         raise AnalysisError("NonRecursiveTreeWalker.__iter__: expected two void-element guards, found %d" % len(guards))
     g_empty = next((g for g in guards if any("emptyTag" in norm(c) for c in ast.walk(g) if isinstance(c, ast.Call))), None)
     g_end = next((g for g in guards if any("endTag" in norm(c) for c in ast.walk(g) if isinstance(c, ast.Call))), None)
